@@ -770,7 +770,7 @@ theorem curvesStep_before (cfg : Cfg) (s s' : St) (b : Option Masters) (h : curv
     exact h.1.symm
 
 theorem preprocessTTF_chain (P0 P1 P2 P3 P4 P5 P6 : St → Prop) (cfg : Cfg) (ms : Masters) (o : PreOut)
-    (h0 : P0 ⟨ms, some ms, [], cfg.orders⟩)
+    (h0 : P0 ⟨ms, none, [], cfg.orders⟩)
     (h1 : ∀ s s', P0 s → skipI cfg.inst cfg.skip s = .ok s' → P1 s')
     (h2 : ∀ s s', P1 s → runCustom cfg true s = .ok s' → P2 s')
     (h3 : ∀ s s', P2 s → decomposeNeeded cfg.inst s = .ok s' → P3 s')
@@ -780,7 +780,7 @@ theorem preprocessTTF_chain (P0 P1 P2 P3 P4 P5 P6 : St → Prop) (cfg : Cfg) (ms
     (h6 : ∀ s s', P5 s → runCustom cfg false s = .ok s' → P6 s')
     (h : preprocessTTF cfg ms = .ok o) : ∃ s, P6 s ∧ s.ms = o.final := by
   unfold preprocessTTF at h
-  cases e1 : skipI cfg.inst cfg.skip ⟨ms, some ms, [], cfg.orders⟩ with
+  cases e1 : skipI cfg.inst cfg.skip ⟨ms, none, [], cfg.orders⟩ with
   | error e => rw [e1] at h; cases h
   | ok s1 =>
     rw [e1] at h; dsimp only at h
@@ -819,14 +819,14 @@ theorem preprocessTTF_chain (P0 P1 P2 P3 P4 P5 P6 : St → Prop) (cfg : Cfg) (ms
               exact ⟨s6, h6 s5 s6 p5 e6, by rw [← ho]⟩
 
 theorem preprocessOTF_chain (P0 P1 P2 P3 P4 : St → Prop) (cfg : Cfg) (ms : Masters) (o : PreOut)
-    (h0 : P0 ⟨ms, some ms, [], cfg.orders⟩)
+    (h0 : P0 ⟨ms, none, [], cfg.orders⟩)
     (h1 : ∀ s s', P0 s → skipI cfg.inst cfg.skip s = .ok s' → P1 s')
     (h2 : ∀ s s', P1 s → runCustom cfg true s = .ok s' → P2 s')
     (h3 : ∀ s s', P2 s → runIU (fun _ => true) (decomposeIStep cfg.inst) s = .ok s' → P3 s')
     (h4 : ∀ s s', P3 s → runCustom cfg false s = .ok s' → P4 s')
     (h : preprocessOTF cfg ms = .ok o) : ∃ s, P4 s ∧ s.ms = o.final := by
   unfold preprocessOTF at h
-  cases e1 : skipI cfg.inst cfg.skip ⟨ms, some ms, [], cfg.orders⟩ with
+  cases e1 : skipI cfg.inst cfg.skip ⟨ms, none, [], cfg.orders⟩ with
   | error e => rw [e1] at h; cases h
   | ok s1 =>
     rw [e1] at h; dsimp only at h
